@@ -402,6 +402,27 @@ func genC09Plan(r *zsim.Rng) *sysPlan {
 	if r.Chance(1, 6) {
 		p.Args = append(p.Args, "--no-input")
 	}
+	if r.Chance(1, 4) {
+		p.Args = append(p.Args, "--track")
+	}
+	// streamed input: the producer writes the records in stages while the user is already at work
+	feeds := 0
+	if n >= 3 && r.Chance(1, 3) {
+		feeds = r.Range(1, 3)
+		left := n
+		for i := 0; i < feeds; i++ {
+			k := r.Range(0, left)
+			if r.Chance(1, 2) {
+				k = r.Range(0, maxInt(1, left/3))
+			}
+			p.Stages = append(p.Stages, k)
+			left -= k
+		}
+		if r.Chance(1, 2) {
+			p.Tail = []int{1, 2, 3, r.Range(1, n), r.Range(1, maxInt(1, n/2))}[r.Intn(5)]
+		}
+		p.HoldOpen = r.Chance(1, 3)
+	}
 	// bind a random subset of the vocabulary
 	perm := make([]int, len(c09Actions))
 	for i := range perm {
@@ -422,6 +443,26 @@ func genC09Plan(r *zsim.Rng) *sysPlan {
 		p.Args = append(p.Args, "--bind", c09Keys[i]+":"+c09Actions[perm[i]])
 	}
 	p.Events = append(p.Events, sysEvent{Kind: "settle"})
+	if feeds > 0 && r.Chance(1, 2) {
+		// make sure something is selected and a query is in force when the next stage arrives
+		keyOf := func(action string) string {
+			for _, b := range bound {
+				if b.action == action {
+					return b.key
+				}
+			}
+			return "space"
+		}
+		for _, a := range [][]string{{"select-all"}, {"toggle", "up", "toggle"}, {"last", "toggle"}, {"toggle-all"}}[r.Intn(4)] {
+			p.Events = append(p.Events, sysEvent{Kind: "keys", Keys: keyOf(a)})
+		}
+		p.Events = append(p.Events, sysEvent{Kind: "settle"})
+		if r.Chance(2, 3) {
+			p.Events = append(p.Events, sysEvent{Kind: "keys", Keys: string([]rune("abcdef1")[r.Intn(7)])}, sysEvent{Kind: "settle"})
+		}
+		feeds--
+		p.Events = append(p.Events, sysEvent{Kind: "feed", DelayMs: r.Intn(30)}, sysEvent{Kind: "settle"})
+	}
 	nev := r.Range(1, 60)
 	settleEach := !r.Chance(1, 4)
 	for i := 0; i < nev; i++ {
@@ -442,6 +483,13 @@ func genC09Plan(r *zsim.Rng) *sysPlan {
 		if settleEach || r.Chance(1, 5) {
 			p.Events = append(p.Events, sysEvent{Kind: "settle"})
 		}
+		if feeds > 0 && r.Chance(feeds, nev-i) {
+			feeds--
+			p.Events = append(p.Events, sysEvent{Kind: "settle"}, sysEvent{Kind: "feed", DelayMs: r.Intn(30)}, sysEvent{Kind: "settle"})
+		}
+	}
+	for ; feeds > 0; feeds-- {
+		p.Events = append(p.Events, sysEvent{Kind: "settle"}, sysEvent{Kind: "feed", DelayMs: r.Intn(30)})
 	}
 	p.Events = append(p.Events, sysEvent{Kind: "settle"})
 	if r.Chance(2, 3) {
@@ -462,6 +510,23 @@ type c09State struct {
 	listValid bool
 	listExact bool
 	syncedAt  int // number of events the model had applied at the last fully successful comparison
+
+	stage       int  // input stages the model has seen written
+	tail        int  // --tail
+	cursorLoose bool // the list went through states the model cannot know (trimming): any cursor inside the list is legitimate
+}
+
+// window is the range of input records the model expects fzf to hold: everything written so far,
+// limited to the most recent --tail records.
+func (st *c09State) window(r *sysRun) (lo, hi int) {
+	hi = len(st.lines)
+	if st.stage < len(r.stageLines) {
+		hi = r.stageLines[st.stage]
+	}
+	if st.tail > 0 && hi-lo > st.tail {
+		lo = hi - st.tail
+	}
+	return
 }
 
 func hasArg(args []string, name string) bool {
@@ -500,6 +565,8 @@ func runC09(c *runCtx) {
 	lay := argValue(plan.Args, "--layout")
 	m.reverse = lay == "reverse" || lay == "reverse-list"
 	st.noInput = hasArg(plan.Args, "--no-input")
+	st.track = hasArg(plan.Args, "--track")
+	st.tail = plan.Tail
 	r.onSettle = func(r *sysRun, busy bool, final bool) { c09Settle(r, st, busy, final) }
 	defer r.cleanup()
 	r.start()
@@ -519,14 +586,38 @@ func runC09(c *runCtx) {
 
 func (st *c09State) refreshList(r *sysRun) {
 	m := st.model
-	items := make([]frozenItem, len(st.lines))
-	for i, l := range st.lines {
-		items[i] = frozenItem{Index: int32(i), Text: l}
+	lo, hi := st.window(r)
+	items := make([]frozenItem, 0, hi-lo)
+	for i := lo; i < hi; i++ {
+		items = append(items, frozenItem{Index: int32(i), Text: st.lines[i]})
 	}
 	mc := r.plan.Match
 	mc.forcePos = true
+	cur, had := m.current()
+	hadList := st.listValid
 	m.list = indicesOf(freshFilter(items, string(m.query), mc))
 	st.listValid = true
+	if st.track && hadList {
+		// --track: the cursor stays on the item it designated if that item is still listed
+		if had {
+			found := false
+			for pos, idx := range m.list {
+				if idx == cur {
+					if pos != m.cy {
+						r.c.count("probe.track_moved_cursor", 1)
+					}
+					m.cy, found = pos, true
+					break
+				}
+			}
+			if !found && m.cy > len(m.list) {
+				// fzf tries to keep the screen row; depends on the scroll offset, which is not modelled
+				st.cursorLoose = true
+			}
+		} else {
+			m.cy = 0
+		}
+	}
 	if m.cy > len(m.list)-1 {
 		m.cy = len(m.list) - 1
 	}
@@ -538,7 +629,7 @@ func (st *c09State) refreshList(r *sysRun) {
 func c09Settle(r *sysRun, st *c09State, busy bool, final bool) {
 	c := r.c
 	s := r.state()
-	if s == nil || busy || s.Reading {
+	if s == nil || busy || (s.Reading && len(r.stageLines) == 0) || !r.inputAtRest() {
 		c.count("settle.busy", 1)
 		return
 	}
@@ -566,6 +657,34 @@ func c09Settle(r *sysRun, st *c09State, busy bool, final bool) {
 			continue
 		}
 		st.applied = i + 1
+		if ev.Kind == "feed" {
+			if st.stage < len(r.stageLines) {
+				st.stage++
+				lo, _ := st.window(r)
+				// records trimmed by --tail are gone, and so is their selection
+				kept := m.sel[:0:0]
+				for _, idx := range m.sel {
+					if int(idx) >= lo {
+						kept = append(kept, idx)
+					}
+				}
+				if len(kept) < len(m.sel) {
+					c.count("probe.selection_trimmed_by_tail", 1)
+				}
+				if len(kept) > 0 {
+					c.count("probe.selection_kept_across_feed", 1)
+				}
+				m.sel = kept
+				st.refreshList(r)
+				if st.tail > 0 {
+					st.cursorLoose = true
+				}
+				// an action in the same burst sees whatever part of the new input had been read by then
+				burstQueryChanged = true
+				c.count("probe.feed_modelled", 1)
+			}
+			continue
+		}
 		if ev.Kind != "keys" {
 			continue
 		}
@@ -639,6 +758,12 @@ func c09Settle(r *sysRun, st *c09State, busy bool, final bool) {
 	if lim != m.multi {
 		c.violate("c09.limit", "%s: selection limit is %d, model %d", pos, lim, m.multi)
 	}
+	if lo, hi := st.window(r); len(r.stageLines) > 0 && (r.fedLines() != hi || s.Count != hi-lo) {
+		// the model and the producer disagree about what has been written (minimised plan), or fzf has not
+		// caught up: C06 decides the latter
+		c.count("settle.input_differs", 1)
+		return
+	}
 	if firstDiff(s.Matches, m.list) >= 0 {
 		// not C09's business (C08 decides convergence); without the same list the rest cannot be compared
 		c.count("settle.list_differs", 1)
@@ -652,6 +777,11 @@ func c09Settle(r *sysRun, st *c09State, busy bool, final bool) {
 		c.violate("c09.selection", "%s: selected items (in selection order) %v, model %v (limit %d, %d results)", pos, s.Selected, m.sel, m.multi, len(m.list))
 		return
 	}
+	if st.cursorLoose && len(m.list) > 0 {
+		m.cy = s.Cy
+		c.count("settle.cursor_resynced", 1)
+	}
+	st.cursorLoose = false
 	if queryChanges >= 2 && len(m.list) > 0 {
 		// Several query changes without a settle in between: whether fzf ever clamped the cursor to one of
 		// the intermediate (shorter) lists depends on timing. Any position inside the list is legitimate;
